@@ -307,8 +307,40 @@ def _run(a, pid, spec, tier, seed, scratch, binfo, t_start, replay_ob):
         return 0
 
     # ---- generate obligations (subprocess: the catalogue runs the real code)
-    g = subprocess.run([PY, os.path.join(VERIF, 'engine', 'gen.py'), pid, tier, str(seed), scratch],
-                       capture_output=True, text=True, env=env, cwd=VERIF)
+    histlog, skipf = os.path.join(scratch, 'histlog.json'), os.path.join(scratch, 'skip_hist.json')
+    genv = dict(env, VERIF_HISTLOG=histlog, VERIF_SKIP_HIST=skipf)
+    skipped = []
+    for attempt in range(8):
+        g = subprocess.run([PY, os.path.join(VERIF, 'engine', 'gen.py'), pid, tier, str(seed), scratch],
+                           capture_output=True, text=True, env=genv, cwd=VERIF)
+        if g.returncode >= 0 or not os.path.exists(histlog):
+            break
+        # the catalogue search (real code, concrete insert/delete history through the public API) killed the
+        # interpreter: skip that history, go on; it comes back as a `history` obligation where the property has one
+        try:
+            rec = json.load(open(histlog))
+        except Exception:   # noqa
+            break
+        if rec in skipped:
+            break
+        skipped.append(rec)
+        json.dump(skipped, open(skipf, 'w'))
+        log('[%s] the catalogue search died (signal %d) on history %s: skipped' % (pid, -g.returncode, rec[2]))
+    if g.returncode < 0 and skipped and pid in ('C01', 'C03', 'C16'):
+        # the search keeps dying (heap damage accumulates over histories): the run of concrete insert/delete histories
+        # through the public API that kills the interpreter is itself the counterexample - replay it in a fresh process
+        rec = skipped[0]
+        ob = dict(id='%s/catalogue-crash/%s' % (pid, rec[0]), mod='h_step', fn='catalogue_crash', nk=0, args=[],
+                  params=dict(family='OO', kind=rec[0], L=rec[1][0], I=rec[1][1], N=rec[3]))
+        rr = concrete_replay(ob, {}, scratch, ignore_known=False)
+        if rr.get('reproduced') and rr.get('crash'):
+            path = os.path.join(VERIF, 'replays', '%s-catalogue-crash.json' % pid)
+            os.makedirs(os.path.dirname(path), exist_ok=True)
+            json.dump({'property': pid, 'obligation': ob, 'cex': {}, 'what': 'insert/delete histories over %d keys through the public API '
+                       'kill the interpreter (%s)' % (rec[3], rr.get('what'))}, open(path, 'w'), indent=1)
+            log('VIOLATION property=%s replay=%s  (the breadth-first run of insert/delete histories over %d keys at node sizes %s kills the '
+                'interpreter: %s)' % (pid, path, rec[3], rec[1], rr.get('what')))
+            return 1
     if g.returncode != 0:
         log('GENERATION FAILED rc=%s\n%s' % (g.returncode, g.stderr[-3000:]))
         return 2
